@@ -326,6 +326,9 @@ func VerifC14_RealQuery() {
 	case si == 2 && (he == 1 || he == 2):
 		want = []byte{4}
 	}
+	// a historical view (what custom queries open) of a height that was never committed cannot be opened
+	fut := (*w.rs.CopyStore()).(*Store)
+	zz.Assert("C14.real.future-height-view-cannot-be-opened", fut.LoadVersion(N+2) != nil)
 	if !exists(he) {
 		zz.Assert("C14.real.pruned-or-future-height-no-value", len(res.Value) == 0)
 		zz.Assert("C14.real.pruned-or-future-height-no-proof", res.Proof == nil || len(res.Proof.Ops) == 0)
@@ -513,4 +516,65 @@ func withBlock(m map[string]string, v int64) map[string]string {
 		c["only2"] = string([]byte{9})
 	}
 	return c
+}
+
+// VerifC14_QueryAfterCrashInsideCommit: the process died inside Commit(3) at a symbolic write; after the restart a
+// query - with or without proof - for height 3 returns value and proof only if version 3 is the committed latest
+// version; if the node reopened at version 2, height 3 is a future height: no value with a proof, never data of a
+// half-written version presented as proven.
+func VerifC14_QueryAfterCrashInsideCommit() {
+	w := vNewReal()
+	w.commits(2)
+	w.block(w.rs, 3)
+	before := w.events
+	w.crash = before + int(zz.Int64("crash_at", 0, 10))
+	func() {
+		defer func() {
+			if r := recover(); r != nil {
+				if _, ok := r.(vtree.Crash); !ok {
+					panic(r)
+				}
+			}
+		}()
+		w.rs.Commit()
+	}()
+	w.crash = 1 << 30
+	re := w.open()
+	if w.loaded(re, re.LoadLatestVersion()) != nil {
+		zz.Reach("C14.crashquery.unopenable") // (C13's concern)
+		return
+	}
+	latest := re.LastCommitID().Version
+	prove := zz.Bool("prove")
+	res := re.Query(abci.RequestQuery{Path: "/alpha/key", Data: []byte("k"), Height: 3, Prove: prove})
+	if latest == 3 {
+		zz.Assert("C14.crashquery.committed-height-answers", bytes.Equal(res.Value, []byte{1, 3}))
+	} else if prove {
+		zz.Assert("C14.crashquery.uncommitted-height-gives-no-proven-data", len(res.Value) == 0 && (res.Proof == nil || len(res.Proof.Ops) == 0))
+	}
+	zz.Reach("C14.crashquery.end")
+}
+
+// VerifC12_InPlaceReloadKeepsPolicy: pruning options set after the stores were loaded still govern the stores after
+// the multistore reloads itself in place (LoadVersion of its latest version on the same object): the versions the
+// policy retains stay readable over the following commits.
+func VerifC12_InPlaceReloadKeepsPolicy() {
+	w := vNewReal()
+	w.commits(2)
+	zz.Assert("C12.inplace.reload", w.rs.LoadVersion(2) == nil) // (the options were set before; they are not set again)
+	for v := int64(3); v <= 4; v++ {
+		w.block(w.rs, v)
+		w.ids[v] = w.rs.Commit()
+		zz.Assert("C12.inplace.version-advances-by-one", w.ids[v].Version == v)
+	}
+	const N = 4
+	target := int64(1 + zz.Choice("target", N))
+	re := w.open()
+	err := w.loaded(re, re.LoadVersion(target))
+	if target == N || vRetained(w.opts, target, N) {
+		zz.Assert("C12.inplace.retained-version-still-readable", err == nil && w.contentAt(re, target))
+	} else {
+		zz.Assert("C12.inplace.pruned-version-unreadable", err != nil)
+	}
+	zz.Reach("C12.inplace.end")
 }
